@@ -1,16 +1,25 @@
 #!/bin/bash
-# usage: mut.sh '<sed expression>' <file relative to repo> <checks...>  -- applies a one-line mutation to a scratch copy of /repo (/tmp/srepo),
-# runs the checks against it (evidence/reports redirected to /tmp/srepo_out), restores the copy
+# usage: [MUT_SCRATCH=/tmp/dir] [TIER=quick|thorough] mut.sh '<sed expression>' <file relative to repo> <checks...>
+# Applies a one-line mutation to a scratch copy of /repo (never /repo itself; created from /repo HEAD on first use), runs the checks against
+# it (facts from GLAM_REPO, evidence/reports redirected with GLAM_VERIF_OUT), and restores the copy.
+# With EXPR = "@patch", <file> is a unified diff to apply instead.
 EXPR="$1"; FILE="$2"; shift 2
-cd /tmp/srepo || exit 2
+SCR="${MUT_SCRATCH:-/tmp/srepo}"
+if [ ! -d "$SCR/.git" ]; then
+  rm -rf "$SCR"; mkdir -p "$SCR"
+  (cd /repo && git archive HEAD | tar -x -C "$SCR") && cp /repo/Cargo.lock "$SCR/"
+  (cd "$SCR" && git init -q . && git add -A >/dev/null && git -c user.email=a@b -c user.name=x commit -qm base >/dev/null)
+fi
+cd "$SCR" || exit 2
 git checkout -q -- .
-sed -i "$EXPR" "$FILE"
+if [ "$EXPR" = "@patch" ]; then git apply "$FILE" || { echo "patch does not apply"; exit 2; }
+else sed -i "$EXPR" "$FILE"; fi
 git diff --stat | tail -1
 if git diff --quiet; then echo "mutation did not change anything"; exit 2; fi
-export GLAM_REPO=/tmp/srepo GLAM_VERIF_OUT=/tmp/srepo_out
+export GLAM_REPO="$SCR" GLAM_VERIF_OUT="${SCR}_out"
 for c in "$@"; do
   OUT=$(cd /verif && ./check $c --tier ${TIER:-quick} 2>&1); RC=$?
   echo "== $c rc=$RC $(echo "$OUT" | head -1)"
-  echo "$OUT" | grep "VIOLATION rule\|UNVERIFIABLE rule" | cut -c1-${W:-330} | head -${N:-4}
+  echo "$OUT" | grep -a "VIOLATION rule\|UNVERIFIABLE rule" | cut -c1-${W:-330} | head -${N:-4}
 done
 git checkout -q -- .
